@@ -4478,6 +4478,13 @@ inline int CLUFactorRational::solveLleft(Rational* vec, int* nonz, int rn)
 
    /*  move rhsidx to a heap
     */
+   // without the zero marker of the floating-point code an entry that cancels to exactly 0 while it waits in the
+   // heap would be enqueued a second time when it is refilled, so remember which rows are already queued
+   std::vector<char> queued(thedim, 0);
+
+   for(i = 0; i < rn; ++i)
+      queued[nonz[i]] = 1;
+
    for(i = 0; i < rn;)
       enQueueMaxRat(nonz, &i, rperm[nonz[i]]);
 
@@ -4511,7 +4518,12 @@ inline int CLUFactorRational::solveLleft(Rational* vec, int* nonz, int rn)
                if(y != 0)
                {
                   vec[m] = y;
-                  enQueueMaxRat(nonz, &rn, rperm[m]);
+
+                  if(!queued[m])
+                  {
+                     queued[m] = 1;
+                     enQueueMaxRat(nonz, &rn, rperm[m]);
+                  }
                }
             }
             else
